@@ -386,11 +386,20 @@ def run(ctx):
         cfg = (rng.choice([2.0, 1.0]), rng.choice(MODES), rng.choice(POOLS[1:]))
         serial += 1
         pf = PooledFixture(cfg, serial)
-        inj.configure("stall", seed=rng.randrange(1 << 30), plan=dict(pt, budget=rng.choice([20, 100]), cap=0.02))
+        inj.configure("stall", seed=rng.randrange(1 << 30),
+                      plan=dict(pt, budget=rng.choice([20, 100]) if rng.random() < 0.5 else 10 ** 9, cap=0.02))
         hits0 = inj.hits
-        for rep in range(4):
-            batch = [notification(rng, rng.choice(["returns", "raises", "returns"]), rng.choice(SHAPES), cfg[1])
-                     for _ in range(rng.randint(1, 4))]
+        gaps = pt["role"] == "worker" and rng.random() < 0.6
+        for rep in range(6 if gaps else 4):
+            if gaps:
+                # lone notifications separated by idle periods of about the pool's idle timeout (0.01 s): each one
+                # arrives while the last idle worker may be on its way out
+                batch = [notification(rng, "returns", rng.choice(SHAPES), cfg[1])]
+                time.sleep(max(0.001, 0.01 + rng.choice([-0.003, -0.001, 0.0, 0.001, 0.002, 0.004, 0.008])))
+                ctx.count("notifications-sent-around-the-idle-timeout")
+            else:
+                batch = [notification(rng, rng.choice(["returns", "raises", "returns"]), rng.choice(SHAPES), cfg[1])
+                         for _ in range(rng.randint(1, 4))]
             one(ctx, pf, cfg, json.dumps(batch if len(batch) > 1 else batch[0]), "stall")
         pf.close(ctx, cfg)
         if inj.hits > hits0:
